@@ -28,7 +28,10 @@ ASSUMPTIONS = [
 DEPTH = {"quick": 3, "thorough": 4}
 T0 = 1_700_000_000.0
 MODS = [("same", 1.0), ("same", 3600.0), ("other", 0.0), ("other", 1.0), ("other", 86400.0), ("touch", 1.0), ("touch", 172800.0), ("restore", 1.0)]  # (a second, an hour, exactly one day, exactly two days later)
-FORMS = ["etag", "lm", "both", "list", "weak", "weak-list", "weak-list-nospace", "star", "both-reversed", "head:etag", "head:both-reversed", "head:star", "list-20", "weak-list-40", "list-latin1", "list-empty-member", "list-leading-comma", "weak-list-empty-members"]
+FORMS = ["etag", "lm", "both", "list", "weak", "weak-list", "weak-list-nospace", "star", "both-reversed", "head:etag", "head:both-reversed", "head:star", "list-20", "weak-list-40", "list-latin1", "list-empty-member", "list-leading-comma", "weak-list-empty-members",
+         # the same validators on a request that also asks for a part of the file (a download being resumed, a media player)
+         "range:etag", "range:both", "range:star", "ranges:weak-list", "norange:etag", "head:range:etag"]
+RANGE_OF = {"range": "bytes=0-1", "ranges": "bytes=0-0, 2-2", "norange": "bytes=99999999-"}
 
 
 class VStat:
@@ -227,6 +230,9 @@ World.cancelled_request = _cancelled_request
 
 def validator_headers(form, v):
     et, lm = v["etag"], v["lm"]
+    for prefix, spec in RANGE_OF.items():
+        if prefix in form.split(":")[:-1]:
+            return validator_headers(form.split(":")[-1], v) + [("Range", spec)]
     form = form.split(":")[-1]
     if form == "both-reversed":
         return [("If-Modified-Since", lm), ("If-None-Match", et)]
@@ -341,6 +347,13 @@ def run_history(hist, r, collect_only=False, variant=0):
                                 problems.append((si, key, form, "If-None-Match: * on an existing file did not give 304"))
                             if not unchanged and res2.header("etag") == old["etag"]:
                                 problems.append((si, key, form, "full response after a modification carries the old ETag"))
+                        elif res2.status in (206, 416) and any(p in RANGE_OF for p in form.split(":")[:-1]):
+                            if unchanged:
+                                problems.append((si, key, form, f"file unchanged but {form.split(':')[-1]} validators of its own 200, sent along with a Range header, did not revalidate (status {res2.status})"))
+                            if res2.status == 206 and "range" in form.split(":")[:-1] and res2.body != (b"" if head else w.content()[0:2]):
+                                problems.append((si, key, form, "206 with wrong content"))
+                            if not unchanged and res2.header("etag") == old["etag"]:
+                                problems.append((si, key, form, "partial response after a modification carries the old ETag"))
                         else:
                             problems.append((si, key, form, f"status {res2.status}"))
     finally:
